@@ -504,10 +504,21 @@ Definition untampered (b : bytes) (h : honest) : bool :=
   bytes_eqb (take_pad (length (h_nonce h)) (skipn (h_pos h + 8) b)) (h_nonce h) &&
   bytes_eqb (take_pad (length (h_ct h)) (skipn (h_pos h + 8 + length (h_nonce h)) b)) (h_ct h).
 
+(* AES-SIV (RFC 5297) splits its key in two halves: the first keys S2V/CMAC (the
+   tag), the second keys CTR (the encryption).  With an empty plaintext - every
+   NTS request - nothing is encrypted and the second half is never used: two keys
+   with the same first half produce and verify the same tag.  "The same key" for
+   the receiver of a packet whose plaintext is empty (ciphertext = the 16-byte
+   tag alone) therefore means: the same first half. *)
+Definition mac_half (k : bytes) : bytes := firstn (length k / 2) k.
+Definition key_accepts (h : honest) (key : bytes) : bool :=
+  bytes_eqb (h_key h) key ||
+  ((length (h_ct h) =? 16)%nat && bytes_eqb (mac_half (h_key h)) (mac_half key)).
+
 (* receiver of direction dir (0 = server, 1 = client) holding key; for a
    client reqid = the unique identifier of its outstanding request *)
 Definition justifies (b key : bytes) (dir : Z) (reqid : bytes) (h : honest) : bool :=
-  bytes_eqb (h_key h) key && (h_dir h =? dir) && untampered b h &&
+  key_accepts h key && (h_dir h =? dir) && untampered b h &&
   (if dir =? 1 then bytes_eqb (h_uid h) reqid else true).
 
 (* the packet is exactly one of the honest ones *)
@@ -578,3 +589,55 @@ Definition C10_client_ok (hs : list honest) (ds : list bytes) (key reqid : bytes
   | b :: _ => if existsb (is_honest b key 1 reqid) hs then used =? 0 else true
   | [] => true
   end.
+
+(* the cookies a listener puts into its reply: the server cookie of the request,
+   sealed again under the provider's current key, once per cookie / placeholder
+   field of the request (rnds = the nonces read from crypto/rand) *)
+Definition reissue (seal : bytes -> bytes -> option bytes -> bytes -> bytes)
+                   (sc : server_cookie) (key : bytes) (keyid : Z) (rnds : list bytes) : list (outcome bytes) :=
+  map (cookie_seal seal sc key keyid) rnds.
+(* what the harness observes of them: each opens under that key to exactly sc *)
+Definition reissued_ok (open : bytes -> bytes -> option bytes -> bytes -> option bytes)
+                       (sc : server_cookie) (key : bytes) (cbs : list (outcome bytes)) : bool :=
+  forallb (fun o => match o with
+                    | Ok cb => match cookie_open open cb key with Ok c => sc_eqb c sc | _ => false end
+                    | _ => false
+                    end) cbs.
+(* what a client's cookie store receives from one packet *)
+Definition client_stored (o : outcome packet) : list bytes :=
+  match o with Ok p => p_cookies p | _ => [] end.
+
+(* ---- oracles of the remaining case kinds, from the property text ---- *)
+(* "every packet produced by the project's own encoder for the same keys is
+   accepted": EncodePacket was given a 48-byte header, an identifier of at least
+   32 bytes, a key of legal length, 16 random bytes, fields that fit into 1024
+   bytes, and no plaintext (ptkind 0) or the plaintext NewResponsePacket makes
+   from cookies of one length that is a multiple of 4 (ptkind 1); code = 0: it
+   did not panic; acc = 1: the receiver accepted the result under the same key *)
+Definition sum_fields (vs : list bytes) : nat :=
+  fold_right (fun v s => (4 + pad4 (length v) + s)%nat) 0%nat vs.
+Definition C10_encode_ok (hdr uid : bytes) (cs phs : list bytes) (key pt rnd : bytes) (ptkind code acc : Z) : bool :=
+  let fits := (length hdr =? 48)%nat && (32 <=? length uid)%nat && key_ok key && (length rnd =? 16)%nat &&
+              (48 + (4 + pad4 (length uid)) + sum_fields cs + sum_fields phs + (24 + pad4 (16 + length pt)) <=? 1024)%nat &&
+              ((ptkind =? 0) || (ptkind =? 1)) in
+  if fits then (code =? 0) && (acc =? 1) else true.
+
+(* a TLV string that decodes is decoded again to the same cookie after
+   re-encoding ("yields exactly the sealed algorithm and keys") *)
+Definition C10_tlv_ok (code same : Z) : bool := if code =? 0 then negb (same =? 0) else true.
+
+(* the real NTS-KE server: the cookies it issued to a client whose exported keys
+   are c2s / s2c each open (under the server key they name) to exactly these keys
+   by direction and the negotiated algorithm, and the exchange names the
+   listener; obs = what each cookie opened to (opened, algorithm, S2C, C2S) *)
+Definition C10_realke_ok (c2s s2c : bytes) (algo addr_ok : Z) (obs : list (bool * server_cookie)) : bool :=
+  (algo =? 15) && negb (addr_ok =? 0) &&
+  match obs with [] => false | _ :: _ => true end &&
+  forallb (fun o => fst o && sc_eqb (snd o) {| sc_algo := 15; sc_s2c := s2c; sc_c2s := c2s |}) obs.
+
+(* ntp.DecodePacket + ntp.ValidateRequest on the first byte of a plain 48-byte
+   request (leap indicator 0 or 3, version 1..4, mode 3, or mode 0 for version 1) *)
+Definition ntp_req_ok (b0 : Z) : bool :=
+  let li := b0 / 64 in let vn := (b0 / 8) mod 8 in let mode := b0 mod 8 in
+  ((li =? 0) || (li =? 3)) && (1 <=? vn) && (vn <=? 4) &&
+  (if vn =? 1 then mode =? 0 else mode =? 3).
